@@ -200,3 +200,58 @@ theorem basisChange_single (i m : Nat) (b : P1) (k : Nat) :
     omega
 
 end NQ.TB
+
+/-! ### allocation state: a `parity_meas` call returns the controller to the state it found -/
+namespace NQ.TB
+open NQ
+
+theorem runLive_append (l1 l2 : List TEv) (live : List Nat) :
+    runLive live (l1 ++ l2) = (runLive live l1).bind fun l => runLive l l2 := by
+  induction l1 generalizing live with
+  | nil => simp [runLive]
+  | cons e l1 ih =>
+    simp only [List.cons_append, runLive]
+    cases evLive live e <;> simp [ih]
+
+/-- gates whose operands are all live leave the allocation state alone -/
+theorem runLive_gates (gs : List GI) (live : List Nat)
+    (h : ∀ g ∈ gs, ∀ q ∈ g.qs, q ∈ live) : runLive live (gs.map TEv.gate) = some live := by
+  induction gs with
+  | nil => rfl
+  | cons g gs ih =>
+    have hg : (g.qs.all fun q => live.contains q) = true := by
+      rw [List.all_eq_true]; intro q hq; simpa using h g (by simp) q hq
+    simp only [List.map_cons, runLive, evLive, hg, if_true, Option.bind_some]
+    exact ih (fun g' hg' => h g' (by simp [hg']))
+
+theorem flipGate_qs (b : P1) (k : Nat) : ∀ g ∈ flipGate b k, g.qs = [k] := by
+  cases b <;> simp [flipGate]
+
+theorem basisChange_qs (bs : List P1) : ∀ k, ∀ g ∈ basisChangeFrom k bs,
+    ∃ q, g.qs = [q] ∧ k ≤ q ∧ q < k + bs.length := by
+  induction bs with
+  | nil => intro k g hg; simp [basisChangeFrom] at hg
+  | cons b bs ih =>
+    intro k g hg
+    simp only [basisChangeFrom, List.mem_append] at hg
+    rcases hg with hg | hg
+    · exact ⟨k, flipGate_qs b k g hg, Nat.le_refl _, by simp⟩
+    · obtain ⟨q, h1, h2, h3⟩ := ih (k + 1) g hg
+      exact ⟨q, h1, by omega, by simp; omega⟩
+
+theorem cnots_qs (bs : List P1) : ∀ k anc, ∀ g ∈ cnotsFrom k anc bs,
+    ∃ c, g.qs = [c, anc] ∧ k ≤ c ∧ c < k + bs.length := by
+  induction bs with
+  | nil => intro k anc g hg; simp [cnotsFrom] at hg
+  | cons b bs ih =>
+    intro k anc g hg
+    simp only [cnotsFrom, List.mem_append] at hg
+    rcases hg with hg | hg
+    · by_cases hb : b = .I
+      · simp [hb] at hg
+      · simp only [hb, if_false, List.mem_singleton] at hg
+        exact ⟨k, by rw [hg], Nat.le_refl _, by simp⟩
+    · obtain ⟨c, h1, h2, h3⟩ := ih (k + 1) anc g hg
+      exact ⟨c, h1, by omega, by simp; omega⟩
+
+end NQ.TB
